@@ -9,7 +9,13 @@ A_SetPub == SetPub /\ hist' = Append(hist, "SetPub")
 A_Rehash == Rehash /\ hist' = Append(hist, "Rehash")
 A_Resign == Resign /\ hist' = Append(hist, "Resign")
 A_BreakSig == BreakSig /\ hist' = Append(hist, "BreakSig")
-A_Duplicate == Duplicate /\ hist' = Append(hist, "Duplicate")
+\* values of DupShapes for the cfgs (a cfg file cannot write tuples)
+ShapesNone == {}
+ShapesTo4 == {sh \in (1..4) \X (1..4) : sh[2] <= sh[1]}        \* every position of blocks of 1..4 transactions
+ShapesTo3And5 == {sh \in (1..3) \X (1..3) : sh[2] <= sh[1]} \cup {<<4, 4>>, <<5, 1>>, <<5, 5>>}
+\* step name "Duplicate:n:i" (parsed by the driver, enumerated by Trace_Binding!DupName)
+DupName(n, i) == "Duplicate:" \o ToString(n) \o ":" \o ToString(i)
+A_Duplicate == \E sh \in DupShapes : Duplicate(sh[1], sh[2]) /\ hist' = Append(hist, DupName(sh[1], sh[2]))
 MNext == A_Tamper \/ A_SetSender \/ A_SetPub \/ A_Rehash \/ A_Resign \/ A_BreakSig \/ A_Duplicate
 MSpec == MInit /\ [][MNext]_<<vars, hist>>
 MView == vars
